@@ -4385,3 +4385,358 @@ func (p *Prog) queryDecisionBasis() []Ob {
 	}
 	return obs
 }
+
+// ---------------------------------------------------------------------------
+// Round-9 additions.
+
+// publishedPositionIsWritten (R11 L4b, C03/C11): the position indexed for a published record is what
+// the writer returned for that very record, not a position the publisher computed.
+func (p *Prog) publishedPositionIsWritten() []Ob {
+	var obs []Ob
+	r := p.R
+	for _, fn := range p.Funcs {
+		if !srcFunc(fn) || recvNamed(fn) != r.HeadWriter {
+			continue
+		}
+		for _, b := range fn.Blocks {
+			for _, ins := range b.Instrs {
+				it, ok := ins.(*ssa.Call)
+				if !ok || calleeName(it.Common()) != "("+pkgIndex+".Params).NewItem" || len(it.Call.Args) != 4 {
+					continue
+				}
+				_, loop := innermostLoop(b)
+				if loop == nil {
+					continue
+				}
+				ob := Ob{Rule: "R11", Inst: "L4b:" + funcLabel(fn) + ":published-position", Props: []string{"C03", "C11", "C01"}, Pos: p.at(it), Func: funcLabel(fn), Nontrivial: true}
+				pos := canon(it.Call.Args[2])
+				okP := false
+				if ex, ok := pos.(*ssa.Extract); ok && ex.Index == 0 {
+					if c, ok := ex.Tuple.(*ssa.Call); ok && calleeName(c.Common()) == "(*"+pkgMessage+".Writer).Write" && loop[c.Block()] {
+						okP = true
+					}
+				}
+				if okP {
+					ob.Status, ob.Msg = Discharged, "the indexed position is the one message.Writer.Write returned in the same iteration"
+				} else {
+					ob.Status, ob.Msg = Violated, "the position put into the index is computed by the publisher ("+pos.String()+") instead of being what the writer returned: it is right only while the head is stored in the format the computation assumes"
+				}
+				obs = append(obs, ob)
+			}
+		}
+	}
+	return obs
+}
+
+// recoverWritesKnownVersion (R11 L10b, C07): Recover rewrites the index only in a version it could
+// read from the old file: the write is dominated by version != VUnknown.
+func (p *Prog) recoverWritesKnownVersion() []Ob {
+	var obs []Ob
+	for _, fn := range p.Funcs {
+		if !srcFunc(fn) || recvNamed(fn) != p.R.Segment {
+			continue
+		}
+		var probes []*ssa.Call
+		for _, b := range fn.Blocks {
+			for _, ins := range b.Instrs {
+				if c, ok := ins.(*ssa.Call); ok && calleeName(c.Common()) == pkgIndex+".GetVersion" {
+					probes = append(probes, c)
+				}
+			}
+		}
+		if len(probes) == 0 {
+			continue
+		}
+		for _, b := range fn.Blocks {
+			for _, ins := range b.Instrs {
+				w, ok := ins.(*ssa.Call)
+				if !ok || calleeName(w.Common()) != pkgIndex+".Write" || len(w.Call.Args) < 3 {
+					continue
+				}
+				ob := Ob{Rule: "R11", Inst: "L10b:" + funcLabel(fn) + ":known-version", Props: []string{"C07", "C05"}, Pos: p.at(w), Func: funcLabel(fn), Nontrivial: true}
+				guarded := false
+				for _, hb := range fn.Blocks {
+					iff, ok := terminator(hb).(*ssa.If)
+					if !ok {
+						continue
+					}
+					bo, ok := iff.Cond.(*ssa.BinOp)
+					if !ok || (bo.Op != token.NEQ && bo.Op != token.EQL) {
+						continue
+					}
+					isUnknown := func(v ssa.Value) bool {
+						u, ok := v.(*ssa.UnOp)
+						if !ok {
+							return false
+						}
+						g, ok := u.X.(*ssa.Global)
+						return ok && strings.Contains(g.Name(), "Unknown")
+					}
+					if !isUnknown(bo.X) && !isUnknown(bo.Y) {
+						continue
+					}
+					e := 0
+					if bo.Op == token.EQL {
+						e = 1
+					}
+					if edgeDominates(hb, e, b) {
+						guarded = true
+					}
+				}
+				if guarded {
+					ob.Status, ob.Msg = Discharged, "the index is rewritten only where the probed version is not the unknown one"
+				} else {
+					ob.Status, ob.Msg = Violated, "the index is rewritten in the version probed from the damaged file without a test that the probe succeeded: with a damaged header the write fails and recovery aborts on an intact log"
+				}
+				obs = append(obs, ob)
+			}
+		}
+	}
+	return obs
+}
+
+// migrateBeforeOpen (R2 O12, C17/C01): in Open no segment is migrated after a writer or reader was
+// built over its files (they would keep appending to the unlinked pre-migration files).
+func (p *Prog) migrateBeforeOpen() []Ob {
+	r := p.R
+	open := r.Open
+	mig := p.methodOf(r.Segment, "Migrate")
+	ob := Ob{Rule: "R2", Inst: "O12:Open:migrate-before-open", Props: []string{"C17", "C01"}, Pos: "-", Func: funcLabel(open), Nontrivial: true}
+	if open == nil || mig == nil {
+		ob.Status, ob.Msg = Undecided, "Open or Segment.Migrate not found"
+		return []Ob{ob}
+	}
+	var migs, ctors []*ssa.Call
+	for _, b := range open.Blocks {
+		for _, ins := range b.Instrs {
+			c, ok := ins.(*ssa.Call)
+			if !ok {
+				continue
+			}
+			g := c.Common().StaticCallee()
+			if g == mig {
+				migs = append(migs, c)
+			}
+			if g != nil && inModule(g) && g.Signature.Results().Len() > 0 {
+				if pt, ok := g.Signature.Results().At(0).Type().(*types.Pointer); ok && (namedOf(pt.Elem()) == r.HeadWriter || namedOf(pt.Elem()) == r.SegReader) {
+					ctors = append(ctors, c)
+				}
+			}
+		}
+	}
+	if len(migs) == 0 {
+		ob.Status, ob.Msg = Undecided, "Open does not call Segment.Migrate"
+		return []Ob{ob}
+	}
+	ob.Pos = p.at(migs[0])
+	var bad []string
+	for _, m := range migs {
+		for _, c := range ctors {
+			if canReach(c, m) {
+				bad = append(bad, fmt.Sprintf("%s: %s runs before the migration at %s", p.at(c), calleeName(c.Common()), p.at(m)))
+			}
+		}
+	}
+	if len(bad) > 0 {
+		ob.Status, ob.Msg, ob.Path = Violated, "a segment can be migrated after a writer or reader was opened over its files: the migration replaces the files by rename, and the open handles go on appending to the unlinked old ones", uniqSorted(bad)
+	} else {
+		ob.Status, ob.Msg = Discharged, "every migration in Open precedes the construction of the writer and the readers"
+	}
+	return []Ob{ob}
+}
+
+// migrationReachableWithRecoverOrCheck (R19d2, C17): EagerVersionMigrate takes effect whatever Recover
+// and Check are: under every combination the call of Segment.Migrate stays reachable in Open.
+func (p *Prog) migrationReachableWithRecoverOrCheck() []Ob {
+	open := p.R.Open
+	mig := p.methodOf(p.R.Segment, "Migrate")
+	ob := Ob{Rule: "R19", Inst: "d2:eager-migration-with-recover-or-check", Props: []string{"C17"}, Pos: "-", Func: funcLabel(open), Nontrivial: true}
+	if open == nil || mig == nil {
+		ob.Status, ob.Msg = Undecided, "Open or Segment.Migrate not found"
+		return []Ob{ob}
+	}
+	ob.Pos = p.posStr(open.Pos())
+	var bad []string
+	for _, rec := range []bool{false, true} {
+		for _, chk := range []bool{false, true} {
+			assume := Assume{"Recover": rec, "Check": chk, "Version.EagerVersionMigrate": true, "Readonly": false}
+			reach := reachableBlocks(open, func(b *ssa.BasicBlock) []*ssa.BasicBlock { return p.prunedSuccs(b, assume) })
+			found := false
+			for _, b := range open.Blocks {
+				if !reach[b] {
+					continue
+				}
+				for _, ins := range b.Instrs {
+					if c, ok := ins.(*ssa.Call); ok && c.Common().StaticCallee() == mig {
+						found = true
+					}
+				}
+			}
+			if !found {
+				bad = append(bad, fmt.Sprintf("with Recover=%v Check=%v the eager migration is unreachable", rec, chk))
+			}
+		}
+	}
+	if len(bad) > 0 {
+		ob.Status, ob.Msg, ob.Path = Violated, "EagerVersionMigrate is silently ignored for some settings of Recover / Check", bad
+	} else {
+		ob.Status, ob.Msg = Discharged, "Segment.Migrate is reachable in Open under all four settings of Recover and Check"
+	}
+	return []Ob{ob}
+}
+
+// keepVersionCoversEveryFormat (R19b2, C17): with KeepRewriteVersion the detected version of the
+// segment is compared with every record format there is, so that each is kept.
+func (p *Prog) keepVersionCoversEveryFormat() []Ob {
+	var obs []Ob
+	r := p.R
+	formats := map[string]bool{}
+	for _, enc := range r.RecEncoders {
+		if v := p.codecVersion(enc); v != "" {
+			formats[v] = true
+		}
+	}
+	for _, fn := range p.Funcs {
+		if !srcFunc(fn) || recvNamed(fn) != r.Impl {
+			continue
+		}
+		compared := map[string]bool{}
+		n := 0
+		for _, b := range fn.Blocks {
+			iff, ok := terminator(b).(*ssa.If)
+			if !ok {
+				continue
+			}
+			bo, ok := iff.Cond.(*ssa.BinOp)
+			if !ok || bo.Op != token.EQL {
+				continue
+			}
+			for _, pair := range [][2]ssa.Value{{bo.X, bo.Y}, {bo.Y, bo.X}} {
+				u, ok := pair[1].(*ssa.UnOp)
+				if !ok {
+					continue
+				}
+				g, ok := u.X.(*ssa.Global)
+				if !ok || g.Pkg == nil || g.Pkg.Pkg.Path() != pkgMessage || !formats[g.Name()] {
+					continue
+				}
+				// the compared value is a detected version (a phi / call result of Version())
+				if _, isGlobalLoad := pair[0].(*ssa.UnOp); isGlobalLoad {
+					continue
+				}
+				compared[g.Name()] = true
+				n++
+			}
+		}
+		if n == 0 {
+			continue
+		}
+		ob := Ob{Rule: "R19", Inst: "b2:keep-version-covers-every-format:" + funcLabel(fn), Props: []string{"C17"}, Pos: p.posStr(fn.Pos()), Func: funcLabel(fn), Nontrivial: true}
+		var missing []string
+		for _, f := range sortedKeys(formats) {
+			if !compared[f] {
+				missing = append(missing, f)
+			}
+		}
+		if len(missing) > 0 {
+			ob.Status, ob.Msg = Violated, "the detected version of a segment is not compared with "+strings.Join(missing, ", ")+": a segment in that format is rewritten in the configured version although KeepRewriteVersion is set"
+		} else {
+			ob.Status, ob.Msg = Discharged, "the detected version is compared with every record format ("+strings.Join(sortedKeys(formats), ", ")+")"
+		}
+		obs = append(obs, ob)
+	}
+	return obs
+}
+
+// staleTargetIndexRemoved (R25e, C20): where the source segment has no index file, the backup removes
+// an index an earlier backup left in the target (it describes an older, shorter log).
+func (p *Prog) staleTargetIndexRemoved() []Ob {
+	var obs []Ob
+	cp := p.copyFileFunc()
+	if cp == nil {
+		return nil
+	}
+	ea := p.ErrAtomsCached()
+	for _, fn := range p.Funcs {
+		if !srcFunc(fn) || recvNamed(fn) != p.R.Segment {
+			continue
+		}
+		for _, b := range fn.Blocks {
+			for _, ins := range b.Instrs {
+				c, ok := ins.(*ssa.Call)
+				if !ok || c.Common().StaticCallee() != cp || len(c.Call.Args) != 2 {
+					continue
+				}
+				pc := p.classifyPath(c.Call.Args[0])
+				if !(pc.kind == "seg" && pc.fld == "Index") {
+					continue
+				}
+				ob := Ob{Rule: "R25", Inst: "e:stale-target-index-removed:" + funcLabel(fn), Props: []string{"C20"}, Pos: p.at(c), Func: funcLabel(fn), Nontrivial: true}
+				dst := canon(c.Call.Args[1])
+				var removes []*ssa.Call
+				for _, b2 := range fn.Blocks {
+					for _, i2 := range b2.Instrs {
+						if rc, ok := i2.(*ssa.Call); ok && calleeName(rc.Common()) == "os.Remove" && canon(rc.Call.Args[0]) == dst {
+							removes = append(removes, rc)
+						}
+					}
+				}
+				var bad []string
+				var errV ssa.Value = c
+				isRemove := map[ssa.Instruction]bool{}
+				for _, rc := range removes {
+					isRemove[rc] = true
+				}
+				tested := false
+				for _, hb := range fn.Blocks {
+					iff, ok := terminator(hb).(*ssa.If)
+					if !ok {
+						continue
+					}
+					t, ok := classifyErrCond(iff.Cond, errV)
+					if !ok || t.kind != "is" || !isNotExistTarget(t.target) {
+						continue
+					}
+					tested = true
+					e := 1
+					if t.trueMeans {
+						e = 0
+					}
+					seen := map[*ssa.BasicBlock]bool{}
+					var walk func(x *ssa.BasicBlock)
+					walk = func(x *ssa.BasicBlock) {
+						if seen[x] {
+							return
+						}
+						seen[x] = true
+						for _, xi := range x.Instrs {
+							if isRemove[xi] {
+								return
+							}
+						}
+						if rt, ok := terminator(x).(*ssa.Return); ok {
+							if !ea.isFailureReturn(fn, rt) {
+								bad = append(bad, p.at(rt)+": success where the source index is missing, without removing the index file an earlier backup may have left in the target")
+							}
+							return
+						}
+						for _, sx := range x.Succs {
+							walk(sx)
+						}
+					}
+					walk(hb.Succs[e])
+				}
+				if !tested {
+					continue // whether a missing index is tolerated at all is R16's question
+				}
+				if len(bad) > 0 {
+					ob.Status, ob.Msg, ob.Path = Violated, "a repeated backup of a segment whose index file is gone leaves the older index in the target next to the newer log", bad
+				} else {
+					ob.Status, ob.Msg = Discharged, "where the source index is missing the target's index file is removed before success"
+				}
+				obs = append(obs, ob)
+			}
+		}
+	}
+	return obs
+}
